@@ -734,7 +734,8 @@ as numpy.loadtxt will not work as expected."""
                 self.names,
                 self.dtype,
                 self.allocation,
-                False,
+                True,
+                True,
             ),
         )
 
